@@ -157,6 +157,15 @@ func c18Measure(cs c18Case) (allocs float64, bound float64, skipped bool) {
 			return 0, 0, true
 		}
 		b := mkBuf(d, L)
+		if cs.Variant == 1 {
+			// a partly filled last frame (one sample of a new frame)
+			if C < 2 {
+				return 0, 0, true
+			}
+			b = dyn.Alloc(d, al(C, L, L+1))
+			b.AppendSample(one)
+			return b.AllocsChannel(0, c18Runs), 0, false
+		}
 		return b.AllocsChannel(C-1, c18Runs), 0, false
 	case "slice":
 		b := mkBuf(d, L)
@@ -225,6 +234,9 @@ func init() {
 								}
 
 								cases = append(cases, c18Case{Op: op, S: tn(t), D: tn(t), C: C, L: L, Spare: spare})
+								if op == "channel" && !spare {
+									cases = append(cases, c18Case{Op: op, S: tn(t), D: tn(t), C: C, L: L, Variant: 1})
+								}
 								if op == "appendsample-full" {
 									cases = append(cases, c18Case{Op: op, S: tn(t), D: tn(t), C: C, L: L, Spare: spare, Variant: 1})
 								}
